@@ -7,7 +7,7 @@ import BfeVerif.C09.Model
   gslb    = "-" | cluster (";" cluster)*                cluster = cname "=" [sub ":" weight ("," sub ":" weight)*]
   table   = "-" | cluster (";" cluster)*                cluster = cname "=" [subspec ("+" subspec)*]
                                                         subspec = sname "~" [backend ("," backend)*] ; backend = name "@" addr "@" port "@" weight
-  events  = "-" | ev ("," ev)*                          ev = (d|u|f|c) "." cname "." sname "." addr "." port   (applied after the reload and after the listing,
+  events  = "-" | ev ("," ev)*                          ev = (d|u|f|c) "^" cname "^" sname "^" addr "^" port   (applied after the reload and after the listing,
                                                         to the first backend of that sub-cluster with that address: SetAvail(false/true), AddFailNum, IncConnNum)
   result  = per step  (`initfail` ends the case when BalTable.Init fails in gslbInit)  status "#" table "#" grave "#" sel   (see `showStep`); a panic ends the case with `panic`.
   `sel` (backends returned by Balance probes) is not predicted by the model: it is copied from the implementation's
@@ -56,7 +56,7 @@ structure Evt where
 
 def parseEvts (s : String) : Option (List Evt) :=
   (splitNE s ",").mapM fun (e : String) =>
-    match e.splitOn "." with
+    match e.splitOn "^" with
     | [op, cn, sn, a, p] => some { op := op, cn := cn, sn := sn, key := a ++ ":" ++ p }
     | _ => none
 
@@ -141,7 +141,7 @@ def sameMultiset (a b : List String) : Bool :=
   (a.mergeSort fun x y => x ≤ y) == (b.mergeSort fun x y => x ≤ y)
 
 /-- judge one step of the implementation: `prev` = implementation's table before the step (after events) -/
-def judgeStep (stp : Step) (prev : List Cluster) (status : String) (tbl : List Cluster) (grave : List Backend)
+def judgeStep (stp : Step) (prev : List Cluster) (prevGrave : List Backend) (status : String) (tbl : List Cluster) (grave : List Backend)
     (sel : List String) (hadGslbErr : Bool) : Option String :=
   if status == "panic" then some (if hadGslbErr then "reload-err-double-release" else "double-release")
   else
@@ -186,6 +186,17 @@ def judgeStep (stp : Step) (prev : List Cluster) (status : String) (tbl : List C
       else !(cands.any fun o => o.avail == b.avail && o.failNum == b.failNum && o.connNum == b.connNum)
   if lost then some "state-lost"
   else
+  -- a backend whose configured (Addr, Port) persists in its sub-cluster must not be released: judged for keys that
+  -- occur exactly once in the whole previous table (so the grave entry can only be that object)
+  let prevObjs := prev.flatMap fun c => c.subs.flatMap fun s => s.backs.map fun b => (c.name, s.name, b)
+  let persistReleased := stp.kind == "L" && prevObjs.any fun (cn, sn, b) =>
+    (prevObjs.filter fun x => x.2.2.key == b.key).length == 1 &&
+    ((stp.g.lookup cn).bind (·.lookup sn)).isSome && decide (confTotal ((stp.g.lookup cn).getD []) > 0) &&
+    (confKeys stp.bc cn sn).contains b.key &&
+    (grave.any fun x => x.key == b.key && x.name == b.name && x.avail == b.avail && x.failNum == b.failNum && x.connNum == b.connNum) &&
+    !(prevGrave.any fun x => x.key == b.key && x.name == b.name && x.avail == b.avail && x.failNum == b.failNum && x.connNum == b.connNum)
+  if persistReleased then some "persisting-backend-released"
+  else
   -- selection probes
   let badSel := sel.any fun e =>
     match e.splitOn "," with
@@ -200,6 +211,7 @@ structure Acc where
   out : List String := []
   verdict : Option String := none
   implPrev : List Cluster := []
+  implGrave : List Backend := []
   tags : List String := []
   stop : Bool := false
 
@@ -225,30 +237,30 @@ def run (op impl : String) : Ans :=
           { a with out := a.out ++ ["initfail"], stop := true, verdict := v, tags := addTag "init-fail" a.tags }
         else if panicked r.st then
           let v := a.verdict.orElse fun _ =>
-            if implS == "panic" then judgeStep stp a.implPrev "panic" [] [] [] r.gslbErr else some "unparsable"
+            if implS == "panic" then judgeStep stp a.implPrev a.implGrave "panic" [] [] [] r.gslbErr else some "unparsable"
           { a with out := a.out ++ ["panic"], stop := true, verdict := v, tags := addTag "panic" a.tags }
         else
           let st' := stp.evts.foldl applyEvt r.st
           let status := if r.gslbErr || r.tableErr then "err" else "ok"
           let line := status ++ "#" ++ showTable r.st ++ "#" ++ showGrave r.st ++ "#" ++ selStr
-          let (v, prev') :=
+          let (v, prev', grave') :=
             match f with
             | [s, t, g, sl] =>
               match parseImplTable t, parseObjs g with
               | some tbl, some gr =>
                 -- the listing is taken right after the reload; the step's events are then applied to the
                 -- implementation's own listing to obtain the `prev` the next step's survivors are compared with
-                (judgeStep stp a.implPrev s tbl gr (splitNE sl ";") r.gslbErr,
-                 (stp.evts.foldl applyEvt { clusters := tbl }).clusters)
-              | _, _ => (some "unparsable", a.implPrev)
-            | _ => (some (if implS == "panic" then "double-release" else "unparsable"), a.implPrev)
+                (judgeStep stp a.implPrev a.implGrave s tbl gr (splitNE sl ";") r.gslbErr,
+                 (stp.evts.foldl applyEvt { clusters := tbl }).clusters, gr)
+              | _, _ => (some "unparsable", a.implPrev, a.implGrave)
+            | _ => (some (if implS == "panic" then "double-release" else "unparsable"), a.implPrev, a.implGrave)
           let tags := a.tags
           let tags := if r.gslbErr then addTag "gslb-err" tags else tags
           let tags := if r.tableErr then addTag "table-err" tags else tags
           let tags := if stp.kind == "L" && r.st.grave.length > a.st.grave.length then addTag "nt" (addTag "released" tags) else tags
           let tags := if stp.kind == "L" && (tableObjs st').any (fun b => !b.avail || b.failNum != 0 || b.connNum != 0) then addTag "stateful-survivor" tags else tags
           go rest (impls.drop 1)
-            { a with st := st', out := a.out ++ [line], verdict := a.verdict.orElse fun _ => v, implPrev := prev', tags := tags,
+            { a with st := st', out := a.out ++ [line], verdict := a.verdict.orElse fun _ => v, implPrev := prev', implGrave := grave', tags := tags,
                      stop := implS == "panic" }
     let a := go steps implSteps {}
     { model := " ".intercalate a.out
